@@ -177,12 +177,14 @@ def _hendrix(ctx, col):
     cls = ctx.ct.get("HendrixTwoProductPerishable")
     I = problem_interp(ctx, cls)
     I.attrs["pu"], I.attrs["pz"] = S("PU"), S("PZ")
-    pr = I.call_method("random_event_probability", [STATE, ACTION, EVENT])
     m = cfgsym("max_useful_life")
     Qa, Qb = cfgsym("max_order_quantity_a"), cfgsym("max_order_quantity_b")
     ma, mb = cfgsym("demand_poisson_mean_a"), cfgsym("demand_poisson_mean_b")
     Ma, Mb = T_mul(Qa, m), T_mul(Qb, m)
     MD = I.attrs["max_demand"]
+    # the tables' shape [max_demand + 1, max_stock_b + 1] (established for the builders below, R16.6 pu / pz)
+    I.sym_shapes["PU"] = I.sym_shapes["PZ"] = (T_add(MD, ONE), T_add(Mb, ONE))
+    pr = I.call_method("random_event_probability", [STATE, ACTION, EVENT])
     sa = ("app", "sum", (("app", "slice", (STATE, ZERO, m, NONE)),))
     sb = ("app", "sum", (("app", "slice", (STATE, m, T_mul(K(2), m), NONE)),))
     ra, rb = ("app", "arange", (T_add(Ma, ONE),)), ("app", "arange", (T_add(Mb, ONE),))
@@ -198,7 +200,7 @@ def _hendrix(ctx, col):
     pzcol = ("app", "lax.dynamic_slice", (S("PZ"), ("tuple", (ZERO, sb)), ("tuple", (T_add(MD, ONE), ONE))))
     rlen = ("app", "arange", (("app", "len", (pzcol,)),))
     c3 = ("atadd", zeros, ("tuple", (allsl, sb)),
-          ("app", "lax.dynamic_slice", (T_mul(pzcol, T_cmp("Lt", rlen, sa)), ("tuple", (ZERO,)), ("tuple", (T_add(Ma, ONE),)))))
+          I.index(T_mul(pzcol, T_cmp("Lt", rlen, sa)), ("slice", NONE, T_add(Ma, ONE), NONE)))
     c4 = ("atadd", zeros, ("tuple", (sa, sb)), I.dot(pzcol, T_cmp("LtE", sa, rlen)))
     total = T_add(T_add(c1, c2), T_add(c3, c4))
     idx = I.call_value(I.attrs[one_data_attr(ctx, cls, "random_event_probability", "call", "event index function")], [EVENT], {})
